@@ -363,12 +363,30 @@ def logical_physical_rule(chk, P, rule, min_pairs=2):
     Lv = {k for k, v in cls.items() if v == {'L'}}
     Pv = {k for k, v in cls.items() if v == {'P'}}
 
+    _loc = {}
+
+    def local_dims(f):
+        """locals whose use fixes their address space: x - Phases[..] makes x logical, x + Phases[..] physical"""
+        if f.qname not in _loc:
+            d = {}
+            for b, i, ln, m in f.nodes():
+                if m[0] == 'b' and m[1] in ('-', '+') and strip(m[2])[0] == 'l':
+                    r = nocast(m[3])
+                    if r[0] == 'i' and strip(r[1]) == ('g', 'Phases'):
+                        d.setdefault(strip(m[2]), set()).add('L' if m[1] == '-' else 'P')
+            _loc[f.qname] = d
+        return _loc[f.qname]
+
     def dim(f, e):
         d = set()
         if has_call(e, 'EProgCounter'):
             d.add('L')
         if has_call(e, 'ProgCounter'):
             d.add('P')
+        ld = local_dims(f)
+        for x in walk(e):
+            if isinstance(x, (list, tuple)) and x and x[0] == 'l' and strip(x) in ld and len(ld[strip(x)]) == 1:
+                d |= ld[strip(x)]
         for x in walk(e):
             if isinstance(x, (list, tuple)) and x and x[0] in ('g', 'gs'):
                 k = P.gkey(f, x[0], x[1])
